@@ -1798,19 +1798,101 @@ def _tdc_row_sites(title, col=None):
     return f
 
 
-def _tdc_blank_values(title):
-    def f(v, site):
-        t = v.tdc[title][site[0]]
-        r = t["rows"][site[1]]
-        for c in [t["hdr"].get("constant"), t["hdr"].get("assumption")] + t["hdr"].get("years", []):
-            if c:
-                t["ws"].cell(row=r, column=c).value = None
+# a pair that is switched on ('Y' in the matrix, its row is shown) needs data whatever else the row holds: 0 = row entirely empty (what typing 'Y' and
+# forgetting the numbers gives), 1 = only the values blanked (units kept), 2 = only an uncertainty left, 3 = only the units left
+TDC_ROW_VARIANTS = ["entirely-empty", "values-blank", "only-uncertainty", "only-units"]
+
+
+def _tdc_row_variant_sites(title):
+    def f(v):
+        out = []
+        for i, t in enumerate(v.tdc[title]):
+            for k in range(min(len(t["rows"]), 3)):
+                for j, what in enumerate(TDC_ROW_VARIANTS):
+                    if what == "only-uncertainty" and "uncertainty" not in t["hdr"]:
+                        continue
+                    out.append([i, k, j])
+        return out
 
     return f
 
 
-reg("db.transfer_without_data", DB, "reject", "data.py:551 'Data values missing for transfer'", _tdc_row_sites("Transfers"), _tdc_blank_values("Transfers"), "semantic")
-reg("db.interaction_without_data", DB, "reject", "data.py:539 'Data values missing for interaction'", _tdc_row_sites("Interactions"), _tdc_blank_values("Interactions"), "semantic")
+def _tdc_blank_values(title):
+    def f(v, site):
+        t = v.tdc[title][site[0]]
+        r = t["rows"][site[1]]
+        what = TDC_ROW_VARIANTS[site[2]]
+        hdr = t["hdr"]
+        ws = t["ws"]
+        for c in [hdr.get("constant"), hdr.get("assumption")] + hdr.get("years", []):
+            if c:
+                ws.cell(row=r, column=c).value = None
+        if what in ("entirely-empty", "only-uncertainty") and hdr.get("units"):
+            ws.cell(row=r, column=hdr["units"]).value = None
+        if hdr.get("uncertainty"):
+            if what == "only-uncertainty":
+                ws.cell(row=r, column=hdr["uncertainty"]).value = 0.1
+            elif what in ("entirely-empty", "only-units"):
+                ws.cell(row=r, column=hdr["uncertainty"]).value = None
+
+    return f
+
+
+reg(
+    "db.transfer_without_data",
+    DB,
+    "reject",
+    "data.py:545-551 every transfer row that is present (pair switched on) needs data: 'Data values missing for transfer'; excel.py:533-569 every row whose first cell is not '...' is read into a TimeSeries",
+    _tdc_row_variant_sites("Transfers"),
+    _tdc_blank_values("Transfers"),
+    "semantic",
+)
+reg(
+    "db.interaction_without_data",
+    DB,
+    "reject",
+    "data.py:531-539 every interaction row that is present (pair switched on) needs data: 'Data values missing for interaction'; excel.py:533-569",
+    _tdc_row_variant_sites("Interactions"),
+    _tdc_blank_values("Interactions"),
+    "semantic",
+)
+
+
+def _tdc_matrix_cells(v, title):
+    """(table index, row index, matrix cell) for data rows whose pair can be found in the Y/N matrix above"""
+    out = []
+    for i, t in enumerate(v.tdc[title]):
+        ws = t["ws"]
+        m0, m1 = t["matrix"]
+        cols = {_s(c.value): c.column for c in ws[m0][1:] if not _blank(c.value)}
+        rows = {_s(ws.cell(row=r, column=1).value): r for r in range(m0 + 1, m1 + 1)}
+        for k, r in enumerate(t["rows"][:3]):
+            a, b = _s(ws.cell(row=r, column=1).value), _s(ws.cell(row=r, column=3).value)
+            if a in rows and b in cols:
+                out.append((i, k, ws.cell(row=rows[a], column=cols[b])))
+    return out
+
+
+def _tdc_matrix_no(title):
+    def f(v, site):
+        cells = _tdc_matrix_cells(v, title)
+        cells[site][2].value = "N"
+
+    return f
+
+
+for _title, _id in (("Transfers", "db.transfer_matrix_says_no_but_row_has_data"), ("Interactions", "db.interaction_matrix_says_no_but_row_has_data")):
+    reg(
+        _id,
+        DB,
+        "accept",
+        "docs/general/skipping-excel-cells.ipynb (TimeDependentConnections, second table): 'only the first row and first column are parsed, as the rest of the content in the table is inferred from the rows present in the table immediately below'; "
+        "excel.py:489-492 'we don't actually parse the matrix, and instead just read in all the TimeSeries instances that are defined' - the row is used as it is",
+        (lambda title: lambda v: _idx(_tdc_matrix_cells(v, title), 4))(_title),
+        _tdc_matrix_no(_title),
+        "semantic",
+    )
+    ENTRIES[_id].same = True
 
 
 def _tdc_blank_units(v, site):
